@@ -128,6 +128,14 @@ type worldB struct {
 	bufferedAtStop map[string]bool
 	queuedAtStop   bool
 	authMode string // ok | fail | timeout
+	// Honeycomb too busy: from busyFrom on, the next busyLeft batches that have
+	// not been refused before are answered 429/503 with Retry-After
+	busyFrom       time.Duration
+	busyLeft       int
+	busyStatus     int
+	busyRetryAfter int
+	busySeen       map[string]bool
+	stopAt         time.Duration // when the shutdown was requested (0: not a shutdown run)
 	selfSend int
 	// per-node transports are tagged so that the SimNet knows the sender
 	collectorAdds map[string][]string // marker -> nodes whose collector accepted it (via tracer observation)
@@ -418,6 +426,22 @@ func (w *worldB) honeycomb(rec *NetRec, req *http.Request) *SimResp {
 		ds, _ := url.PathUnescape(strings.TrimPrefix(rec.Path, "/1/batch/"))
 		var resp []map[string]int
 		w.mu.Lock()
+		if w.busyLeft > 0 && rec.At >= w.busyFrom {
+			key := rec.Path + "\x00" + string(rec.RawBody)
+			if w.busySeen == nil {
+				w.busySeen = map[string]bool{}
+			}
+			if !w.busySeen[key] {
+				w.busySeen[key] = true
+				w.busyLeft--
+				w.mu.Unlock()
+				w.out.Fault(fmt.Sprintf("honeycomb_busy_%d", w.busyStatus))
+				if w.stopAt > 0 && rec.At >= w.stopAt {
+					w.out.Probe("flush_met_busy_honeycomb")
+				}
+				return &SimResp{Status: w.busyStatus, Header: http.Header{"Retry-After": {fmt.Sprint(w.busyRetryAfter)}}, Body: []byte(`{"error":"busy"}`)}
+			}
+		}
 		for _, it := range items {
 			d, _ := it["data"].(map[string]any)
 			mk, _ := d["mk"].(string)
